@@ -18,6 +18,7 @@ import (
 	client "github.com/ipni/go-libipni/find/client"
 	"github.com/ipni/go-libipni/find/model"
 	"github.com/libp2p/go-libp2p/core/peer"
+	b58 "github.com/mr-tron/base58/base58"
 	"github.com/multiformats/go-multiaddr"
 	"github.com/multiformats/go-multihash"
 
@@ -424,6 +425,39 @@ func (s *memDHStore) FindMetadata(_ context.Context, hvk []byte) ([]byte, error)
 	return s.md[string(hvk)], nil
 }
 
+// ServeHTTP exposes the in-memory store the way a dhstore does (the paths the library's HTTP client requests).
+func (s *memDHStore) ServeHTTP(w http.ResponseWriter, req *http.Request) {
+	parts := strings.Split(strings.Trim(req.URL.Path, "/"), "/")
+	switch {
+	case len(parts) == 3 && parts[0] == "encrypted" && parts[1] == "multihash":
+		mh, err := multihash.FromB58String(parts[2])
+		if err != nil {
+			http.Error(w, "bad multihash", http.StatusBadRequest)
+			return
+		}
+		res, _ := s.FindMultihash(req.Context(), mh)
+		if len(res) == 0 {
+			http.Error(w, "", http.StatusNotFound)
+			return
+		}
+		json.NewEncoder(w).Encode(model.FindResponse{EncryptedMultihashResults: res})
+	case len(parts) == 2 && parts[0] == "metadata":
+		hvk, err := b58.Decode(parts[1])
+		if err != nil {
+			http.Error(w, "bad key", http.StatusBadRequest)
+			return
+		}
+		md, _ := s.FindMetadata(req.Context(), hvk)
+		if len(md) == 0 {
+			http.Error(w, "", http.StatusNotFound)
+			return
+		}
+		json.NewEncoder(w).Encode(map[string][]byte{"EncryptedMetadata": md})
+	default:
+		http.Error(w, "not found", http.StatusNotFound)
+	}
+}
+
 type idxEntry struct {
 	pid peer.ID
 	ctx []byte
@@ -459,6 +493,16 @@ func c12Find(c *vf.Ctx) {
 		http.Error(w, "", http.StatusNotFound)
 	}))
 	defer srv.Close()
+	// and one server per shard fronts the in-memory dhstore of the case being run over HTTP
+	var curStore atomic.Pointer[memDHStore]
+	dhsrv := newMemServer(http.HandlerFunc(func(w http.ResponseWriter, req *http.Request) {
+		if st := curStore.Load(); st != nil {
+			st.ServeHTTP(w, req)
+			return
+		}
+		http.Error(w, "", http.StatusNotFound)
+	}))
+	defer dhsrv.Close()
 	for i := 0; i < n; i++ {
 		if !c.Mine(sub, i) {
 			continue
@@ -521,6 +565,13 @@ func c12Find(c *vf.Ctx) {
 			c.Inc("find_hostile_stores")
 		}
 		withPcache := r.Intn(2) == 0
+		viaHTTP := r.Intn(2) == 0 // through the library's own dhstore HTTP client instead of the Go interface
+		curStore.Store(store)
+		storeOpt := client.WithDHStoreAPI(store)
+		if viaHTTP {
+			storeOpt = client.WithDHStoreURL(dhsrv.URL)
+			c.Inc("find_via_dhstore_http")
+		}
 		var cl *client.DHashClient
 		var err error
 		addrs := map[peer.ID][]multiaddr.Multiaddr{}
@@ -532,10 +583,10 @@ func c12Find(c *vf.Ctx) {
 				infos = append(infos, &model.ProviderInfo{AddrInfo: peer.AddrInfo{ID: p.ID, Addrs: []multiaddr.Multiaddr{a}}, LastAdvertisementTime: time.Unix(int64(1700000000+k), 0).UTC().Format(time.RFC3339)})
 			}
 			curInfos.Store(&infos)
-			cl, err = client.NewDHashClient(client.WithDHStoreAPI(store), client.WithProvidersURL(srv.URL), client.WithPcachePreload(r.Intn(2) == 0))
+			cl, err = client.NewDHashClient(storeOpt, client.WithProvidersURL(srv.URL), client.WithPcachePreload(r.Intn(2) == 0))
 			c.Inc("find_with_pcache")
 		} else {
-			cl, err = client.NewDHashClient(client.WithDHStoreAPI(store), client.WithMetadataOnly(true))
+			cl, err = client.NewDHashClient(storeOpt, client.WithMetadataOnly(true))
 			c.Inc("find_metadata_only")
 		}
 		if err != nil {
@@ -543,7 +594,7 @@ func c12Find(c *vf.Ctx) {
 			continue
 		}
 		wit := func() any {
-			m := map[string]any{"hostile_store": hostile, "with_pcache": withPcache}
+			m := map[string]any{"hostile_store": hostile, "with_pcache": withPcache, "via_dhstore_http": viaHTTP}
 			var idx []string
 			for mh, es := range index {
 				for _, e := range es {
